@@ -181,11 +181,14 @@ def make_topo(oid, fill_case, tiers=("quick", "thorough")):
 
 
 # ------------------------------------------------------------------ UGRID
-def make_ugrid(oid, si_case, fill_case, dtype, tiers=("quick", "thorough")):
+def make_ugrid(oid, si_case, fill_case, dtype, tiers=("quick", "thorough"), shape=(2, 4, 6), topo_dims=False):
     """UGRID dataset with arbitrary names; si_case in {'absent','0','1'}; fill_case in {'absent','minus1','big','std'}; dtype in {int64,int32,float64}"""
-    n_face, n_max, n_node = 2, 4, 6
+    n_face, n_max, n_node = shape          # shape (k, k, .): as many faces as columns (a reader that tells rows from columns by size cannot)
     fillv = {"absent": None, "minus1": -1, "big": 999999, "std": F, "nan": float("nan")}[fill_case]
-    sizes = [4, 4] if fill_case == "absent" else None
+    sizes = [n_max] * n_face if fill_case == "absent" else None
+    TOPO = {"cf_role": "mesh_topology", "topology_dimension": 2, "node_coordinates": "nlon nlat", "face_node_connectivity": "fnc"}
+    if topo_dims:
+        TOPO.update({"face_dimension": "nFaces", "node_dimension": "nNodes"})
     base = 1 if si_case == "1" else 0           # UGRID: start_index defaults to 0
 
     def setup(ctx):
@@ -230,8 +233,7 @@ def make_ugrid(oid, si_case, fill_case, dtype, tiers=("quick", "thorough")):
         arr = symnp.SArr.new(vals, (n_face, n_max), None, dt)
         keep = arr.copy()
         ds = symxr.Dataset()
-        ds["Mesh2"] = symxr.DataArray(symnp.array(0), dims=[], attrs={"cf_role": "mesh_topology", "topology_dimension": 2,
-                                                                        "node_coordinates": "nlon nlat", "face_node_connectivity": "fnc"})
+        ds["Mesh2"] = symxr.DataArray(symnp.array(0), dims=[], attrs=dict(TOPO))
         ds["nlon"] = symxr.DataArray(C.sarr_1d(lon, symnp.float64), dims=["nNodes"])
         ds["nlat"] = symxr.DataArray(C.sarr_1d(lat, symnp.float64), dims=["nNodes"])
         ds["fnc"] = symxr.DataArray(arr, dims=["nFaces", "nMaxNodes"], attrs=attrs())
@@ -255,7 +257,7 @@ def make_ugrid(oid, si_case, fill_case, dtype, tiers=("quick", "thorough")):
         rows = [[(x + base) if x != F else pad for x in r] for r in v["fn"]]
         arr = np.array(rows, dtype=npdt)
         ds = xr.Dataset()
-        ds["Mesh2"] = xr.DataArray(0, attrs={"cf_role": "mesh_topology", "topology_dimension": 2, "node_coordinates": "nlon nlat", "face_node_connectivity": "fnc"})
+        ds["Mesh2"] = xr.DataArray(0, attrs=dict(TOPO))
         ds["nlon"] = xr.DataArray(np.array(v["lon"], dtype=float), dims=["nNodes"])
         ds["nlat"] = xr.DataArray(np.array(v["lat"], dtype=float), dims=["nNodes"])
         ds["fnc"] = xr.DataArray(arr, dims=["nFaces", "nMaxNodes"], attrs=attrs())
@@ -266,7 +268,8 @@ def make_ugrid(oid, si_case, fill_case, dtype, tiers=("quick", "thorough")):
     return Obligation(oid, f"UGRID dataset -> Grid: start_index {si_case}, _FillValue {fill_case}, {dtype}, arbitrary names", setup, run, replay, exact=True,
                       functions=["Grid.from_dataset", "io.utils._parse_grid_type", "_ugrid._is_ugrid", "_ugrid._read_ugrid", "_ugrid._standardize_connectivity",
                                  "connectivity._replace_fill_values", "coordinates._set_desired_longitude_range"],
-                      bounds="2 faces <= 4 corners (all padding layouts), nodes < 6, lon in [0,360]", tiers=tiers, max_paths=400)
+                      bounds=f"{n_face} faces <= {n_max} corners (all padding layouts), nodes < {n_node}, lon in [0,360]" + (", face_dimension / node_dimension declared" if topo_dims else ""),
+                      tiers=tiers, max_paths=400)
 
 
 # ------------------------------------------------------------------ ESMF
@@ -1238,6 +1241,8 @@ def obligations(tier):
             quick = (si, fc, dt) in [("absent", "minus1", "int64"), ("1", "std", "int64"), ("1", "big", "int32"), ("0", "absent", "int32"), ("1", "nan", "float64"),
                                      ("0", "minus1", "float64"), ("1", "minus1", "int64"), ("0", "std", "int64")]
             obs.append(make_ugrid(f"C01.ugrid.si_{si}.fill_{fc}.{dt}", si, fc, dt, tiers=("quick", "thorough") if quick else ("thorough",)))
+    obs += [make_ugrid("C01.ugrid.square3.si_0.fill_std", "0", "std", "int64", shape=(3, 3, 5), topo_dims=True),
+            make_ugrid("C01.ugrid.square4.si_1.fill_minus1", "1", "minus1", "int32", shape=(4, 4, 6), topo_dims=True)]
     obs += [make_esmf(f"C01.esmf.si_{si}", si) for si in ("absent", "0", "1")]
     obs += [make_esmf(f"C01.esmf.si_{si}.int64", si, dtype="int64") for si in ("absent", "1")]
     obs += [make_mpas("C01.mpas.primal", False), make_mpas("C01.mpas.dual", True),
